@@ -380,6 +380,7 @@ func init() {
 			firstCallUnit(firstTrie),
 			{Name: "bigshapes", TShards: 2, Run: c15BigShapes},
 			{Name: "longmembers", Run: c15LongMembers},
+			{Name: "filldrain", QShards: 2, TShards: 6, Run: c15FillDrain},
 		},
 	})
 }
@@ -795,6 +796,101 @@ func c15LongMembers(c *Ctx) {
 			observeTrie(k, t, m, probes, "after deleting by a long prefix")
 			k.Count("long_member_cases", 1)
 			k.Nontrivial([]byte(fmt.Sprint("long", l)))
+		})
+	}
+}
+
+// c15FillDrain: the fan-out of one node (the root, or a node under a prefix) is
+// walked UP AND DOWN through a list of targets — 0, 1, 2, 8, 15..17, 63..65,
+// 127..129, 255, 256 — several times: children are added until the target is
+// reached, or deleted (in random order, a whole member or by a prefix) until it
+// is, down to the empty trie and up again. A node that changes its
+// representation with its width (map <-> table, small <-> large) is converted
+// on the way up only by growth, and on the way down only by histories that
+// drain it, which random histories over large alphabets never do. After every
+// phase: the model comparison (Has on every byte as a first symbol, ForEach,
+// JSON); after every step: Has on the key just touched.
+func c15FillDrain(c *Ctx) {
+	n := c.N(40, 600)
+	levels := []int{0, 0, 1, 2, 8, 15, 16, 17, 63, 64, 65, 127, 128, 129, 255, 256}
+	for i := 0; i < n; i++ {
+		c.Case(int64(i), func(k *K) {
+			r := k.Rand()
+			prefix := pick(r, []string{"", "", "p", "\x00\xff", "deep/er/"})
+			t, m := trie.New(), newSetModel()
+			if prefix != "" && r.IntN(2) == 0 {
+				t.Add([]byte("zz-sibling"))
+				m.Add("zz-sibling")
+			}
+			present := map[byte]string{} // first symbol under the prefix -> the member that carries it (one each)
+			var profile []int
+			k.Input("prefix", prefix)
+			phases := 4 + r.IntN(6)
+			steps := 0
+			for ph := 0; ph < phases; ph++ {
+				target := pick(r, levels)
+				if ph == phases-2 {
+					target = 0
+				}
+				profile = append(profile, target)
+				k.Input("fanout_profile", fmt.Sprint(profile))
+				for len(present) != target {
+					steps++
+					if len(present) < target {
+						var b byte
+						for {
+							b = byte(r.IntN(256))
+							if _, ok := present[b]; !ok {
+								break
+							}
+						}
+						key := prefix + string([]byte{b}) + pick(r, []string{"", "", "x", "tail", "\x00"})
+						if !applyOp(k, t, m, trieOp{false, key}, fmt.Sprintf("phase %d step %d", ph, steps)) {
+							return
+						}
+						present[b] = key
+					} else {
+						var b byte
+						j := r.IntN(len(present))
+						for bb := range present {
+							if j == 0 {
+								b = bb
+								break
+							}
+							j--
+						}
+						key := present[b]
+						if r.IntN(2) == 0 {
+							key = prefix + string([]byte{b}) // by its prefix
+						}
+						if !applyOp(k, t, m, trieOp{true, key}, fmt.Sprintf("phase %d step %d", ph, steps)) {
+							return
+						}
+						delete(present, b)
+						if got, want := t.Has([]byte(prefix+string([]byte{b}))), m.Has(prefix+string([]byte{b})); got != want {
+							k.Failf("has", "right after Delete(%q): Has(%q) = %v, model says %v (fan-out profile %v)", key, prefix+string([]byte{b}), got, want, profile)
+							return
+						}
+					}
+				}
+				probes := []string{"", prefix}
+				for b := 0; b < 256; b++ {
+					probes = append(probes, prefix+string([]byte{byte(b)}), prefix+string([]byte{byte(b)})+"x")
+				}
+				what := fmt.Sprintf("after phase %d (fan-out profile %v)", ph, profile)
+				if !observeTrie(k, t, m, probes, what) {
+					return
+				}
+				if t2 := jsonRebuild(k, t, what); t2 == nil || !observeTrie(k, t2, m, probes, "JSON-rebuilt trie "+what) {
+					return
+				}
+				k.Count("filldrain_phases", 1)
+				if target == 0 && prefix == "" {
+					k.Count("drained_to_empty", 1)
+				}
+			}
+			k.Count("histories", 1)
+			k.Nontrivial([]byte(fmt.Sprint("filldrain", prefix, profile)))
 		})
 	}
 }
